@@ -42,6 +42,7 @@ Verdicts(ev) ==
     \o (IF ev.reported # SelectSeq(ev.applied, LAMBDA r : r # "activation") THEN <<"get_quantizers_is_not_what_is_applied">> ELSE <<>>)
     \o (IF ev.pre # Expected(ev) THEN <<"output_is_not_the_op_on_quantized_weights">> ELSE <<>>)
     \o (IF ev.stock # 1 THEN <<"differs_from_stock_layer_with_quantized_weights">> ELSE <<>>)
+    \o (IF ev.area_ok # 1 THEN <<"pooling_reciprocal_is_not_one_over_the_pooling_area">> ELSE <<>>)
 Init == i = 1
 Next == /\ i <= Len(Tr)
         /\ LET v == Verdicts(Tr[i]) IN IF v # <<>> THEN PrintT(<<"REJECT", i, v>>) ELSE TRUE
